@@ -20,6 +20,7 @@ import urllib.parse
 import compat  # noqa: F401
 import appsim
 import crawl_common as cc
+import hostile
 from appsim import Page, html
 from runner import enc, unjson
 
@@ -139,6 +140,72 @@ def load_as_fetched(checker, url_info, data):
         checker._read_content(response, url_info)
     finally:
         response.body.close()
+
+
+PARSE_PIECES = ['User-agent', 'user-agent', 'USERAGENT', 'Disallow', 'disallow', 'Allow', 'ALLOW', 'Sitemap', 'Crawl-delay', 'Host', 'Noindex', 'x',
+                ':', ':', ':', ' ', ' ', '\t', '#', '#', '*', 'wpull', 'foobot', '/', '/p', '/private', '/a%2Fb', '%7e', '$', 'http://a.test/s.xml', '1',
+                '\x0b', '\x0c', '\x1c', '\x1e', '\x1f', '\x85', '\xa0', '\x00', '\x7f', '\x01', '\xe9', '\xef\xbb\xbf', 'Disallow:/x', 'User-agent:*',
+                'Allow: /y', 'xDisallow: /z', 'Disallow : /w', 'allow:disallow:/v', 'User-agent: a # b']
+PARSE_ENDS = ['\n', '\n', '\r\n', '\r', '\n\n', '\r\r\n', '\n\r']
+
+
+def gen_parse_text(rng):
+    r = rng.random()
+    if r < 0.35:
+        return gen_robots(rng, odd=rng.random() < 0.6)
+    if r < 0.5:
+        return hostile.robots_doc(rng).decode('latin-1')
+    lines = []
+    for _ in range(rng.randint(0, 8)):
+        lines.append(''.join(rng.choice(PARSE_PIECES) for _ in range(rng.randint(0, 6))))
+    return ''.join(l + rng.choice(PARSE_ENDS) for l in lines) + rng.choice(['', 'Disallow: /last', '#'])
+
+
+def real_parse(data):
+    from wpull.robotstxt import RobotsTxtPool
+    from wpull.url import URLInfo
+    from wpull.protocol.http.robots import RobotsTxtChecker
+    pool = RobotsTxtPool()
+    base = URLInfo.parse('http://a.test/')
+    load_as_fetched(RobotsTxtChecker(web_client=None, robots_txt_pool=pool), base, data)
+    rs = getattr(pool._parsers[pool.url_info_key(base)], '_RobotExclusionRulesParser__rulesets')
+    return [(list(r.robot_names), [(t == r.ALLOW, p) for t, p in r.rules]) for r in rs]
+
+
+def dec_model_rulesets(rep):
+    import wpull.thirdparty.robotexclusionrulesparser as rerp
+    if rep == '~':
+        return []
+    out = []
+    for part in rep.split('|'):
+        ns, rs = part.split(':')
+        names = [dec_str(x) for x in ns.split(',')]
+        rules = [] if rs == '_' else [(x[0] == 'A', rerp._unquote_path(dec_str(x[2:]))) for x in rs.split(',')]
+        out.append((names, rules))
+    return out
+
+
+def dec_str(x):
+    return '' if x == '-' else ''.join(chr(int(h, 16)) for h in x.split('.'))
+
+
+def stream_parse(ctx, n, texts=None):
+    """The tokenizer: bytes of a robots.txt -> the rule sets the matcher consults, model against the real parser
+    (the model keeps paths as written; the module's own _unquote_path is applied to its answer)."""
+    rng = ctx.subrng('parse')
+    texts = texts if texts is not None else [gen_parse_text(rng) for _ in range(n)]
+    replies = ctx.model.ask(['robots parse %s' % enc(t) for t in texts])
+    for t, rep in zip(texts, replies):
+        real = real_parse(t.encode('latin-1', 'replace'))
+        ctx.case(('parse', t), nontrivial=bool(real), tags=['parse:sets=%d' % min(len(real), 3)])
+        try:
+            model = dec_model_rulesets(rep)
+        except Exception:      # noqa
+            model = rep
+        if model != real:
+            ctx.disagree('parse', {'stream': 'parse', 'robots': t}, repr(model), repr(real))
+    if texts:
+        ctx.sample({'stream': 'parse', 'robots': texts[0]})
 
 
 def stream_match(ctx, n):
@@ -810,6 +877,8 @@ def stream_nofollow(ctx, n):
 def replay(ctx, case, kind=None, where=None):
     if case.get('stream') == 'nofollow':
         replay_nofollow(ctx, case)
+    elif case.get('stream') == 'parse':
+        stream_parse(ctx, 1, [case['robots']])
     elif case.get('stream') == 'gate':
         batch(ctx, [(RSite.from_desc(case['site']), case['conc'], case['seed'], case.get('ua'))])
     else:
@@ -858,6 +927,7 @@ def run(ctx):
     for case in load_corpus(ctx):
         replay(ctx, case)
     stream_match(ctx, ctx.scale(1500, 40000))
+    stream_parse(ctx, ctx.scale(2500, 60000))
     stream_nofollow(ctx, ctx.scale(400, 8000))
     batch(ctx, gen_cases(ctx.rng, ctx.scale(60, 1500)))
 
